@@ -810,7 +810,7 @@ pub fn check() -> Check {
     Check::new(
         "C40",
         "Access controller changes need two roles or an elapsed timer",
-        "8 access controllers per world (fungible / non-fungible controlled asset x timed-recovery delay None / 1 / 10 / 10 000 minutes; a distinct badge resource per role). Histories of 1-25 calls over the whole method set (initiate / cancel recovery and badge withdraw as primary and as recovery, the four quick confirms, timed confirm, stop timed recovery, lock / unlock primary, create_proof, mint_recovery_badges, contribute / lock / withdraw recovery fee), each presenting the badge of a role the template lists for the method, or adversarially none, another role's, two roles', or a badge from another rule set; proposals from a pool of 4 (3 rule sets, two proposals differing only in the delay), confirms steered to the pending proposal 3 times out of 4; the ledger clock advanced between calls by 0, seconds, 59-61 s, 10 min, to the timer's boundary minute -1 ms / exactly / +1 min, or 10 000 h. After every call the three role rules are read from the role-assignment substates and the asset from the raw vault. Oracle (safety predicate over the history): rules change or the asset leaves only through a successful confirm; a quick confirm needs a pending proposal made with the proposer role's badge (not cancelled, not superseded by a confirmed change), the same proposal, and the badge of a second role allowed by the template; a timed confirm needs the recovery role's own pending proposal on a running timer, the same proposal, and minute(now) >= minute(proposal) + delay; rules read back after a recovery confirm equal the proposal's rule set; create_proof succeeds only while the primary role is not locked; a failed transaction changes nothing; and the two happy paths (primary proposal quick-confirmed by recovery / confirmation; recovery proposal timed-confirmed after the delay) succeed when generated. Non-trivial = a confirm attempted after a cancel, re-initiate, lock toggle or stop. Distinct = distinct decoded choice sequences.",
+        "8 access controllers per world (fungible / non-fungible controlled asset x timed-recovery delay None / 1 / 10 / 10 000 minutes; a distinct badge resource per role). Histories of 1-25 calls over the whole method set (initiate / cancel recovery and badge withdraw as primary and as recovery, the four quick confirms, timed confirm, stop timed recovery, lock / unlock primary, create_proof, mint_recovery_badges, contribute / lock / withdraw recovery fee), each presenting the badge of a role the template lists for the method, or adversarially none, another role's, two roles', or a badge from another rule set; proposals from a pool of 4 (3 rule sets, two proposals differing only in the delay), confirms steered to the pending proposal 3 times out of 4; the ledger clock advanced between calls by 0, seconds, 59-61 s, 10 min, to the timer's boundary minute -1 ms / exactly / +1 min, or 10 000 min. After every call the three role rules are read from the role-assignment substates and the asset from the raw vault. Oracle (safety predicate over the history): rules change or the asset leaves only through a successful confirm; a quick confirm needs a pending proposal made with the proposer role's badge (not cancelled, not superseded by a confirmed change), the same proposal, and the badge of a second role allowed by the template; a timed confirm needs the recovery role's own pending proposal on a running timer, the same proposal, and minute(now) >= minute(proposal) + delay; rules read back after a recovery confirm equal the proposal's rule set; create_proof succeeds only while the primary role is not locked; a failed transaction changes nothing; and the two happy paths (primary proposal quick-confirmed by recovery / confirmation; recovery proposal timed-confirmed after the delay) succeed when generated. Non-trivial = a confirm attempted after a cancel, re-initiate, lock toggle or stop. Distinct = distinct decoded choice sequences.",
     )
     .assume("time is compared at minute precision, as the ledger clock the blueprint reads (TimePrecision::Minute) provides it")
     .assume("timed_confirm_recovery is a public method in the role template: the caller of a timed confirm is unconstrained, only the proposal must be the recovery role's own")
